@@ -83,6 +83,12 @@ class ExprMixin:
         finally:
             self.spec_mode = prev
 
+    def pynone(self, sv):
+        """`v is None` for a value of an opaque sort that the contract module declared nullable (an arbitrary Python
+        object, which may be None itself): an uninterpreted predicate."""
+        self.used_models.add(f"opaque {sv.ty.name} may be None: uninterpreted predicate")
+        return z3.Function("is_pynone_" + sv.ty.name, sv.ty.sort(), z3.BoolSort())(sv.t)
+
     def truthy(self, sv):
         ty = sv.ty
         if ty == T.Bool:
@@ -108,7 +114,10 @@ class ExprMixin:
             if ty.name in self.always_truthy:
                 return z3.BoolVal(True)
             self.used_models.add(f"truthiness of opaque {ty.name}: uninterpreted")
-            return z3.Function("truthy_" + ty.name, ty.sort(), z3.BoolSort())(sv.t)
+            tr = z3.Function("truthy_" + ty.name, ty.sort(), z3.BoolSort())(sv.t)
+            if ty.name in self.nullable_sorts:
+                return z3.And(z3.Not(self.pynone(sv)), tr)
+            return tr
         if isinstance(ty, (T.Rec, T.Tup, T.Enum)):
             if isinstance(ty, T.Tup) and not ty.items:
                 return z3.BoolVal(False)
@@ -541,6 +550,10 @@ class ExprMixin:
                 r = a.ty.is_none(a.t)
             elif isinstance(a.ty, T.TNone) and isinstance(b.ty, T.Opt):
                 r = b.ty.is_none(b.t)
+            elif isinstance(b.ty, T.TNone) and isinstance(a.ty, T.U) and a.ty.name in self.nullable_sorts:
+                r = self.pynone(a)
+            elif isinstance(a.ty, T.TNone) and isinstance(b.ty, T.U) and b.ty.name in self.nullable_sorts:
+                r = self.pynone(b)
             elif isinstance(a.ty, T.TNone) or isinstance(b.ty, T.TNone):
                 r = z3.BoolVal(isinstance(a.ty, T.TNone) and isinstance(b.ty, T.TNone))
             else:
@@ -927,9 +940,19 @@ class ExprMixin:
             g = gens[0]
             vs, guard, binds, _ = self.gen_domain(g, st)
             with self.binding(binds):
-                conds = [self.truthy(self.ev(c, st)) for c in g.ifs]
-                with self.guarded(z3.And(guard, *conds)):
-                    body = rec(gens[1:], st)
+                # fresh values created while evaluating the body (rounded floats, results of contracted calls) are
+                # Skolem functions of the bound variables, their facts are quantified over them
+                self.qscope.append((vs, guard))
+                try:
+                    conds = [self.truthy(self.ev(c, st)) for c in g.ifs]
+                finally:
+                    self.qscope.pop()
+                self.qscope.append((vs, z3.And(guard, *conds)))
+                try:
+                    with self.guarded(z3.And(guard, *conds)):
+                        body = rec(gens[1:], st)
+                finally:
+                    self.qscope.pop()
             full_guard = z3.And(guard, *conds)
             if universal:
                 return z3.ForAll(vs, z3.Implies(full_guard, body))
@@ -979,8 +1002,12 @@ class ExprMixin:
         g = node.generators[0]
         vs, guard, binds, dom = self.gen_domain(g, st)
         with self.binding(binds):
-            conds = [self.truthy(self.ev(c, st)) for c in g.ifs]
-            body = self.ev(node.elt, st)
+            self.qscope.append((vs, guard))
+            try:
+                conds = [self.truthy(self.ev(c, st)) for c in g.ifs]
+                body = self.ev(node.elt, st)
+            finally:
+                self.qscope.pop()
         sty = T.Set(body.ty)
         y = z3.Const("y!sc", body.ty.sort())
         return SV(z3.Lambda([y], z3.Exists(vs, z3.And(guard, *conds, body.t == y))), sty)
@@ -996,7 +1023,11 @@ class ExprMixin:
             raise Unsupported("filtered dict comprehension")
         with self.binding(binds):
             with self.guarded(guard):
-                val = self.ev(node.value, st, want.val if isinstance(want, T.Map) else None)
+                self.qscope.append((vs, guard))
+                try:
+                    val = self.ev(node.value, st, want.val if isinstance(want, T.Map) else None)
+                finally:
+                    self.qscope.pop()
         kty = binds[node.key.id].ty
         mty = T.Map(kty, val.ty)
         k = z3.Const("k!dc", kty.sort())
